@@ -12,6 +12,8 @@ Repaired (regression theorem below): RecContainer (F-C18-6, 0916db1).
 -/
 import KinModel.Lemmas.C18Dang
 import KinModel.Gen.GenKinds
+import KinModel.Gen.GenFlow
+import KinModel.Gen3Flow
 namespace KinModel.Gen3
 
 /-- The executable oracle used by the driver is the specification: `acceptB` decides `Sat`. -/
@@ -200,6 +202,41 @@ theorem genTags_is_model : Gen.genTagKeys.map (·.2.1) = modelTagKeys ∧ Gen.ge
 
 /-- the option set of the generator is the one in the model (`Opts`) -/
 theorem genOpts_is_model : Gen.genOptFields = modelOptFields := by decide
+
+/-! ### the statement skeleton of the generator functions (regenerated by every run: table GenFlow) -/
+
+/-- the walker could read every statement of the nine functions (and found each of them exactly once) -/
+theorem genFlow_read : Gen.genFlowUnrecognised = [] := by decide
+
+set_option maxRecDepth 20000
+
+/-- **The code the model transcribes is the code of the tree under test.** Every condition, switch tag, case list,
+loop header, return expression and assignment of `NewSchemaRefForValue` (both), `NewGenerator`, `GenerateSchemaRef`,
+`generateSchemaRefFor`, `getStructField`, `generateWithoutSaving`, `generateTypeName` and `generateCycleSchemaRef`, in
+source order, is the one `Gen3.lean` was written against (`modelFlow_…`, one definition per function naming the model
+definitions that transcribe it): e.g. the byte-slice test looks at the element's KIND (`isU8`), the cycle reference is
+named by `generateTypeName` (`cycleName`), `isRoot` is `cap(parents) == 0`, the early `$ref` return is guarded by
+ExportComponentSchemas. One theorem per function so that a broken obligation names the function that changed. -/
+theorem genFlow_is_model_entry :
+    Gen.genFlow_NewSchemaRefForValue = modelFlow_NewSchemaRefForValue ∧ Gen.genFlow_NewGenerator = modelFlow_NewGenerator ∧
+    Gen.genFlow_Generator_GenerateSchemaRef = modelFlow_Generator_GenerateSchemaRef := by decide
+theorem genFlow_is_model_export_loop :
+    Gen.genFlow_Generator_NewSchemaRefForValue = modelFlow_Generator_NewSchemaRefForValue := by decide
+theorem genFlow_is_model_schemaRefFor :
+    Gen.genFlow_Generator_generateSchemaRefFor = modelFlow_Generator_generateSchemaRefFor := by decide
+theorem genFlow_is_model_getStructField : Gen.genFlow_getStructField = modelFlow_getStructField := by decide
+theorem genFlow_is_model_withoutSaving :
+    Gen.genFlow_Generator_generateWithoutSaving = modelFlow_Generator_generateWithoutSaving := by decide
+theorem genFlow_is_model_typeName :
+    Gen.genFlow_Generator_generateTypeName = modelFlow_Generator_generateTypeName := by decide
+theorem genFlow_is_model_cycleRef :
+    Gen.genFlow_Generator_generateCycleSchemaRef = modelFlow_Generator_generateCycleSchemaRef := by decide
+/-- … hence the whole table is the transcript -/
+theorem genFlow_is_model : Gen.genFlow = modelFlow := by
+  unfold Gen.genFlow modelFlow
+  rw [genFlow_is_model_entry.1, genFlow_is_model_entry.2.1, genFlow_is_model_entry.2.2, genFlow_is_model_export_loop,
+    genFlow_is_model_schemaRefFor, genFlow_is_model_getStructField, genFlow_is_model_withoutSaving,
+    genFlow_is_model_typeName, genFlow_is_model_cycleRef]
 
 /-- The integer bounds table admits every value of the kind (all ten kinds, extremes included). -/
 theorem int_bounds_admit (k : IntKind) (n : Int) (h : inRange k n = true) :
